@@ -372,6 +372,8 @@ def execute(w, keep=False, timeout=30):
             args += ["--crash", "%d,%d" % w.crash]
         if getattr(w, "sched", None) is not None:
             args += ["--sched", str(w.sched)]
+        for k in getattr(w, "meta_faults", []):
+            args += ["--meta-fault", str(k)]
         if getattr(w, "sched_fs", None) is not None:
             args += ["--sched-fs", str(w.sched_fs)]
         if getattr(w, "partial", None) is not None:
